@@ -636,7 +636,9 @@ func (this *BWT) inverseBiPSIv2Task(dst []byte, buckets []int, fastBits []uint16
 		p := int(indexes[c])
 		last := start - 1
 
-		for i := start + 1; i <= end; i += 2 {
+		i := start + 1
+
+		for ; i < end; i += 2 {
 			s := fastBits[p>>shift]
 
 			for buckets[s] <= p {
@@ -649,6 +651,23 @@ func (this *BWT) inverseBiPSIv2Task(dst []byte, buckets []int, fastBits []uint16
 
 			if verifOn {
 				last = i
+			}
+		}
+
+		if i == end {
+			// Odd number of bytes in the chunk: the second byte of the last pair is
+			// the first byte of the next chunk (possibly written by another goroutine)
+			// or the last byte of the block (set by the caller)
+			s := fastBits[p>>shift]
+
+			for buckets[s] <= p {
+				s++
+			}
+
+			dst[i-1] = byte(s >> 8)
+
+			if verifOn {
+				last = i - 1
 			}
 		}
 
